@@ -10,6 +10,7 @@ arbitrary unicode lines with every line-boundary character of str.splitlines.
 from __future__ import annotations
 
 import itertools
+import os
 import random
 from typing import Any
 
@@ -22,11 +23,18 @@ META = dict(
                "indented text no instruction is flagged and every instruction hangs under the nearest preceding "
                "instruction one level (4 spaces) shallower, which opens a body (structure_law, "
                "parent_is_nearest_shallower; bodies are opened by exactly Block/Watch/Alarm/Macro: opener_names); "
-               "(3) on every other text an instruction is flagged (bad_indentation_flagged, flagged_iff_incorrect). "
+               "(3) on every other text an instruction is flagged — the first offending one; later independent offenders "
+               "are not claimed (bad_indentation_flagged, flagged_iff_incorrect). Judged from the TEXT (indentation = "
+               "leading white space of the line, srcInfos): the law holds on every text all of whose lines are blank, "
+               "comments or match the instruction pattern (C17_partial), and on every text with "
+               "fixes/C17-error-line-keeps-indentation.diff (text_law_repaired). "
                "The model is tied to PcodeParser by differential execution on whole texts (structured, exhaustive "
                "small scope, arbitrary unicode).",
-    level_note="The structure law is proved for the parser with fixes/C17-empty-body-blank-lines.diff; the unrepaired "
-               "parser violates it (Lean: asis_* witnesses) and this check reports a VIOLATION on it. Blank and "
+    level_note="Partial: a well indented line that does not match the instruction pattern ('    ?', '    :x') is put at "
+               "column 0, leaves its block unflagged, and the next well indented line is flagged and re-nested "
+               "(C17_full / C17_counterexample; known finding unparsable-line-treated-as-column-0; repair proposed, not "
+               "applied). The structure law is for the indentation pass with the committed C17 repair (asis_* witnesses "
+               "for the pass before it). 'Four spaces' = any four white-space characters. Blank and "
                "comment-only lines are transparent for the indentation discipline (as in IndentationCheckAnalyzer). "
                "'Parsing never fails' is a model totality + an observable of the correspondence (an exception of the "
                "real parser is a diff). Trusted: Lean kernel, harness, CPython str.splitlines/re (differential), "
@@ -38,7 +46,8 @@ MODULE = "OPM.Properties.C17"
 REQUIRED = ["OPM.C17.one_node_per_line", "OPM.C17.text_one_node_per_line", "OPM.C17.structure_law",
             "OPM.C17.parent_is_nearest_shallower", "OPM.C17.bad_indentation_flagged",
             "OPM.C17.text_bad_indentation_flagged", "OPM.C17.flagged_iff_incorrect", "OPM.C17.opener_names",
-            "OPM.C17.lines_have_no_boundary"]
+            "OPM.C17.lines_have_no_boundary", "OPM.C17.text_law_of_columns", "OPM.C17.C17_counterexample",
+            "OPM.C17.C17_partial", "OPM.C17.text_law_repaired"]
 DRIVER = "Parse"
 
 
@@ -65,6 +74,8 @@ def gen_structured(rng: random.Random, max_lines: int, p_bad: float) -> dict:
     level, prev_opener = 0, False
     p_ws = rng.choice([0.0, 0.15, 0.35])
     p_enter = rng.choice([0.6, 0.85, 1.0])
+    p_x = rng.choice([0.0, 0.0, 0.1, 0.25])        # instruction lines that do not match the line pattern
+    deep = rng.random() < 0.3                       # nest eagerly: multi-level outdents from depth >= 3
     while len(lines) < n:
         if rng.random() < p_ws:
             lines.append(pc.rand_ws_line(rng, 4 * level))
@@ -76,16 +87,43 @@ def gen_structured(rng: random.Random, max_lines: int, p_bad: float) -> dict:
             ind = 4 * (level + 1)
         else:
             ind = 4 * rng.choice([level] * 3 + list(range(0, level + 1)))
-        text, kind = pc.rand_instruction(rng, opener=None if level < 4 else False)
+        if rng.random() < p_x:
+            text, kind = rng.choice(pc.UNPARSABLE), "x"
+        else:
+            text, kind = pc.rand_instruction(rng, opener=(True if deep and rng.random() < 0.6 else None)
+                                             if level < 5 else False)
         lines.append(" " * ind + text)
         meta.append([ind, kind])
         if ind % 4 == 0:
             level, prev_opener = ind // 4, kind == "o"
-    return {"text": _join(lines, rng, rng.random() < 0.15), "meta": meta}
+    case = {"text": _join(lines, rng, rng.random() < 0.15), "meta": meta}
+    if rng.random() < 0.25:
+        case["ids"] = "custom"   # ParserMethod built by the caller (the frontend path), ids are not id_<n>
+    return case
+
+
+def gen_unparsable_in_bodies() -> list[dict]:
+    """every unparsable line in the body of every opener kind: first / middle / last line, one and two levels deep"""
+    from harness import parse_common as pc
+    heads = {"Block": "Block: A", "Watch": "Watch: X > 1", "Alarm": "Alarm: X < 2", "Macro": "Macro: M"}
+    out = []
+    for name, head in heads.items():
+        for u in pc.UNPARSABLE:
+            for pos in range(3):
+                for depth in (1, 2):
+                    ind = 4 * depth
+                    pre = [("Block: Outer", 0, "o")] if depth == 2 else []
+                    body = [("Mark: a", ind, "l"), ("Mark: b", ind, "l")]
+                    body.insert(pos, (u, ind, "x"))
+                    ls = pre + [(head, ind - 4, "o")] + body + [("Mark: after", 0, "l")]
+                    out.append({"text": "".join(" " * i + t + "\n" for t, i, _ in ls),
+                                "meta": [[i, k] for _, i, k in ls]})
+    return out
 
 
 ALPHABET = [("Block: A", "o", 0), ("Watch: X > 1", "o", 4), ("Mark: a", "l", 0), ("Mark: b", "l", 4),
-            ("Mark: c", "l", 8), ("Mark: d", "l", 2), ("# c", "w", 0), ("", "w", 0), ("Macro: M", "o", 8)]
+            ("Mark: c", "l", 8), ("Mark: d", "l", 2), ("# c", "w", 0), ("", "w", 0), ("Macro: M", "o", 8),
+            ("?", "x", 4)]
 
 
 def gen_exhaustive(maxlen: int, symbols: int) -> list[dict]:
@@ -124,6 +162,8 @@ def reference(meta: list[list[Any]]) -> dict:
     prev, opn = 0, False
     empty_body = ws_after_opener = False
     last_instr = None
+    first_bad = None
+    after_empty: list[int] = []
     for i, (ind, kind) in enumerate(meta):
         if kind == "w":
             if last_instr is not None and meta[last_instr][1] == "o":
@@ -131,8 +171,11 @@ def reference(meta: list[list[Any]]) -> dict:
             continue
         if ind % 4 != 0 or not (ind <= prev or (opn and ind == prev + 4)):
             correct = False
+            if first_bad is None:
+                first_bad = i
         if opn and ind <= prev:
             empty_body = True
+            after_empty.append(i)
         prev, opn, last_instr = ind, kind == "o", i
     parents: dict[int, int | None] = {}
     if correct:
@@ -141,7 +184,8 @@ def reference(meta: list[list[Any]]) -> dict:
                 continue
             parents[i] = next((j for j in range(i - 1, -1, -1)
                                if meta[j][1] != "w" and meta[j][0] + 4 == ind), None)
-    return {"correct": correct, "parents": parents, "empty_body": empty_body, "ws_after_opener": ws_after_opener}
+    return {"correct": correct, "parents": parents, "empty_body": empty_body, "ws_after_opener": ws_after_opener,
+            "first_bad": first_bad, "after_empty": after_empty}
 
 
 def oracle(case: dict) -> Failure | None:
@@ -151,7 +195,7 @@ def oracle(case: dict) -> Failure | None:
     text, meta = case["text"], case.get("meta")
     src = text.splitlines()
     try:
-        method, prog = pc.parse_text(text)
+        method, prog = pc.parse_text(text, custom_ids=case.get("ids") == "custom")
     except Exception as e:
         return Failure("parse-raises", case, f"parsing raised {type(e).__name__}: {e}")
     nodes = pc.preorder(prog)
@@ -167,10 +211,17 @@ def oracle(case: dict) -> Failure | None:
     ref = reference(meta)
     index = {n.id: i for i, (n, _) in enumerate(nodes)}
     flagged = [i for i, (n, _) in enumerate(nodes) if meta[i][1] != "w" and n.indent_error]
+
+    def unparsable_before(i: int) -> bool:
+        """an indented line that does not match the line pattern at or before line i (recorded finding)"""
+        return any(k == "x" and ind > 0 for ind, k in meta[: i + 1])
+
     if not ref["correct"]:
         if not flagged:
-            return Failure("bad-indentation-not-flagged", case,
-                           "the instruction lines are not correctly indented but no instruction carries indent_error")
+            key = "unparsable-line-treated-as-column-0" if unparsable_before(ref["first_bad"]) \
+                else "bad-indentation-not-flagged"
+            return Failure(key, case, f"line {ref['first_bad'] + 1} ({src[ref['first_bad']]!r}) breaks the indentation "
+                           "discipline (judged from the text) but no instruction carries indent_error")
         return None
     wrong = []
     for i, (n, par) in enumerate(nodes):
@@ -181,11 +232,13 @@ def oracle(case: dict) -> Failure | None:
             wrong.append((i, got, ref["parents"][i]))
     if not wrong:
         return None
-    if ref["empty_body"] and flagged:
-        return None  # reading "an opener without body is an indentation error": flagged, not silently re-nested
     i, got, exp = wrong[0]
+    if any(e in flagged and e <= i for e in ref["after_empty"]):
+        return None  # reading "an opener without body is an indentation error": the line after it is flagged
     prev_instr = next((j for j in range(i - 1, -1, -1) if meta[j][1] != "w"), None)
-    if prev_instr is not None and meta[prev_instr][1] == "o" and meta[i][0] <= meta[prev_instr][0]:
+    if unparsable_before(i):
+        key = "unparsable-line-treated-as-column-0"
+    elif prev_instr is not None and meta[prev_instr][1] == "o" and meta[i][0] <= meta[prev_instr][0]:
         key = "empty-body-opener-adopts-following-line"
     elif ref["ws_after_opener"] and flagged:
         key = "blank-or-comment-after-opener-renests-following-lines"
@@ -204,8 +257,15 @@ def _uod() -> str:
     return enc_list(UOD)
 
 
-def text_op(case: dict, fx_indent: str = "1") -> list[str]:
-    return [f"text\t1\t{fx_indent}\t{_uod()}\t{enc(case['text'])}"]
+# The model follows the code that exists. fixes/C17-error-line-keeps-indentation.diff is a proposed repair that is
+# NOT in /repo: with it applied set this to True (and move the finding of findings.d/C17.json to "fixed"); the
+# Lean side has both variants (`TextLaw false` = C17_full/C17_counterexample/C17_partial, `text_law_repaired`).
+ERROR_LINE_REPAIRED = os.environ.get("VERIF_C17_ERROR_LINE_REPAIRED") == "1"   # default: the code as it is
+
+
+def text_op(case: dict, fx_indent: str = "1", fe: str | None = None) -> list[str]:
+    fe = ("1" if ERROR_LINE_REPAIRED else "0") if fe is None else fe
+    return [f"text\t1\t{fe}\t{fx_indent}\t{_uod()}\t{enc(case['text'])}"]
 
 
 def _shape(ctx: Check, case: dict) -> None:
@@ -219,6 +279,10 @@ def _shape(ctx: Check, case: dict) -> None:
         ctx.count("has_empty_body")
     if ref["ws_after_opener"]:
         ctx.count("blank_or_comment_right_after_opener")
+    if any(k == "x" and ind > 0 for ind, k in meta):
+        ctx.count("has_indented_unparsable_line")
+    if case.get("ids") == "custom":
+        ctx.count("caller_supplied_line_ids")
     depth = max([ind // 4 for ind, k in meta if k != "w" and ind % 4 == 0] + [0])
     ctx.count(f"max_level_{min(depth, 4)}")
 
@@ -231,9 +295,12 @@ def run(ctx: Check) -> int:
     rng = ctx.rng
     ctx.rule = ("texts: (a) corpus; (b) grammar-generated programs (Block/Watch/Alarm/Macro bodies to 5 levels, thresholds, "
                 "arguments, comments, blank/comment lines at arbitrary indentation, empty bodies) with 0 % / 15 % of "
-                "the instruction lines indented wrongly (1-19 spaces) and every str.splitlines line boundary; (c) all "
-                "texts of up to 4/5 lines over a 9-line alphabet (openers, leaves, comments, blanks at indentation "
-                "0/2/4/8/12); (d) arbitrary unicode lines. Non-trivial = at least two instruction lines of which one is "
+                "the instruction lines indented wrongly (1-19 spaces), 0/10/25 % instruction lines that do not match the line "
+                "pattern ('?', ':x', '-5 Mark', …) at their intended indentation, eager nesting in 30 % of the texts, "
+                "every str.splitlines line boundary, a quarter through caller-built ParserMethod objects with foreign line "
+                "ids; (b') every unparsable line x every opener kind x first/middle/last body line x depth 1/2; (c) all "
+                "texts of up to 4/5 lines over a 10/9-line alphabet (openers, leaves, comments, blanks, an unparsable line, "
+                "indentation 0/2/4/8); (d) arbitrary unicode lines. The oracle judges indentation from the text. Non-trivial = at least two instruction lines of which one is "
                 "indented.")
 
     def nontrivial(c, o):
@@ -243,15 +310,19 @@ def run(ctx: Check) -> int:
         ins = [x for x in m if x[1] != "w"]
         return len(ins) >= 2 and any(x[0] > 0 for x in ins)
 
-    impl = lambda c: [pc.observe_rows(c["text"])]  # noqa: E731
+    impl = lambda c: [pc.observe_rows(c["text"], custom_ids=c.get("ids") == "custom")]  # noqa: E731
 
     corpus = [c for c in load_corpus("C17") if "text" in c]
     structured = [gen_structured(rng, ctx.n(12, 40), 0.0 if rng.random() < 0.6 else 0.15)
                   for _ in range(ctx.n(800, 30000))]
-    exhaustive = gen_exhaustive(ctx.n(4, 5), 9)
+    exhaustive = gen_exhaustive(ctx.n(4, 5), ctx.n(10, 9)) + \
+        (gen_exhaustive(5, 10)[::7] if ctx.tier == "thorough" else [])
+    unparsable = gen_unparsable_in_bodies()
     uni = [gen_unicode(rng, ctx.n(8, 20)) for _ in range(ctx.n(600, 30000))]
 
-    streams = [("corpus", corpus), ("structured", structured), ("exhaustive", exhaustive), ("unicode", uni)]
+    streams = [("structured", corpus + unparsable + structured), ("exhaustive", exhaustive), ("unicode", uni)]
+    ctx.extra["structured_stream"] = {"corpus": len(corpus), "unparsable_line_in_every_body": len(unparsable),
+                                      "generated": len(structured)}
     outs = {}
     for name, cases in streams:
         if not cases:
@@ -261,22 +332,25 @@ def run(ctx: Check) -> int:
             _shape(ctx, c)
     # first pass of parse_method alone: number of lines and node class per line
     ctx.correspond("nodes", DRIVER, uni[: ctx.n(300, 15000)],
-                   lambda c: [f"nodes\t1\t{_uod()}\t{enc(c['text'])}"], lambda c: [pc.observe_nodes(c["text"])])
+                   lambda c: [f"nodes\t1\t{'1' if ERROR_LINE_REPAIRED else '0'}\t{_uod()}\t{enc(c['text'])}"], lambda c: [pc.observe_nodes(c["text"])])
     # self-test: the unrepaired indentation policy must be visible on the generated texts
     if "structured" in outs and outs["structured"][1]:
-        ctx.selftest("structured", DRIVER, structured, lambda c: text_op(c, "0"), outs["structured"][1])
+        ctx.selftest("structured", DRIVER, structured[: ctx.n(400, 5000)], lambda c: text_op(c, "0"),
+                     outs["structured"][1][len(corpus) + len(unparsable):][: ctx.n(400, 5000)])
     # the property oracle on everything generated
     for name, cases in streams:
         ctx.monitor(cases, oracle)
     ctx.exhaustive = False
-    ctx.extra["exhaustive_scope"] = (f"all texts of 1..{ctx.n(4, 5)} lines over 9 line shapes: "
+    ctx.extra["exhaustive_scope"] = (f"all texts of 1..{ctx.n(4, 5)} lines over {ctx.n(10, 9)} line shapes "
+                                     f"(thorough: + every 7th text of 5 lines over 10 shapes): "
                                      f"{len(exhaustive)} texts")
     ctx.assumptions = ["method text is a valid unicode string (no lone surrogates)",
                        "indentation of blank and comment-only lines carries no meaning (IndentationCheckAnalyzer "
                        "ignores them; test_parser.test_parse_block_w_blank_*, "
                        "test_analyzer_check.test_end_block_after_not_indented_comment)",
                        "a line that opens a body and has none is correctly indented text (the oracle also accepts a "
-                       "parser that flags it instead)"]
+                       "parser that flags the line right after it instead)",
+                       "a source line is a line of str.splitlines (what ParserMethod.from_pcode uses)"]
     return ctx.finish(search=_search)
 
 
